@@ -558,13 +558,16 @@ func parseRib(data []byte, family bgp.Family, isAddPath bool) (*Rib, error) {
 func (u *Rib) Serialize() ([]byte, error) {
 	buf := make([]byte, 4)
 	binary.BigEndian.PutUint32(buf, u.SequenceNumber)
+	// RFC 6396 4.3.2/4.3.3: only RIB_GENERIC carries AFI/SAFI; the four
+	// AFI/SAFI-specific subtypes start the NLRI right after the sequence
+	// number (this is what parseRib reads back).
 	switch u.Family {
-	case bgp.RF_FS_IPv4_UC, bgp.RF_IPv4_MC, bgp.RF_IPv6_UC, bgp.RF_IPv6_MC:
+	case bgp.RF_IPv4_UC, bgp.RF_IPv4_MC, bgp.RF_IPv6_UC, bgp.RF_IPv6_MC:
+	default:
 		var bbuf [2]byte
 		binary.BigEndian.PutUint16(bbuf[:], u.Family.Afi())
 		buf = append(buf, bbuf[:]...)
 		buf = append(buf, u.Family.Safi())
-	default:
 	}
 	bbuf, err := u.Prefix.Serialize()
 	if err != nil {
